@@ -10,14 +10,14 @@ from harness.common import Check
 from translate import dispatch as t_disp, guards as t_guards, ops as t_ops
 
 THEOREMS = ["C17_range", "C17_hard_values", "C17_hard_event", "C17_hard_temperature_independent", "C17_hard_probability",
-            "C17_reproducible", "C17_guard", "C17_layer_hard_single_gate", "C17_layer_soft_mixture"]
+            "C17_reproducible", "C17_guard", "C17_layer_hard_single_gate", "C17_layer_soft_mixture", "C17_sampling_source"]
 TRUSTED = [
     "Coq 8.16.1 kernel/coqc; theorems over R depend on the standard-library Reals axioms and Classical_Prop.classic",
     "partial: that torch.rand_like returns independent uniform variates on [0,1) is trusted (the distributional claim is reduced to the "
     "length of the interval of draws on which the hard sample is 1); the fixed-seed frequency test is support, not proof",
     "the harness wraps torch.rand_like in its own process to feed chosen draws; the model Proofs/C17Facts.v (gumbel_soft) is tied by a "
     "float64 mirror, by `interval` lemmas |model - observed| <= 1e-9 and by exact comparison of hard samples away from the endpoint",
-    "torch.nn.functional.gumbel_softmax (raw layers) is modelled from its documentation",
+    "translator translate/sampling.py: statement-level comparison of functional.gumbel_sigmoid / gumbel_softmax / soft_raw / hard_raw / soft_walsh / hard_walsh with the modelled statements; torch.softmax, sigmoid, exponential_ and rand_like are trusted primitives",
 ]
 
 
@@ -152,6 +152,37 @@ def run(ck: Check):
                                     {"layer": name, "param": par}, signature={"layer": name, "param": par, "mode": mode, "what": "single-gate"})
                         break
                 # temperature sensitivity of the Walsh hard sample through a layer: same draws, two temperatures
+    # raw Gumbel modes over the whole range of temperatures: with all neurons wired to (input 0, input 1) and the residual
+    # initialisation (logit 5 on gate 3 = 'a', 0 elsewhere) a neuron's sampled gate is read off its outputs on the four input
+    # rows; gumbel_hard must give one gate per neuron, gate 3 with probability e^5 / (e^5 + 15) whatever the temperature, and
+    # gumbel_soft a finite mixture in [0,1]
+    n_neur = 20000 if ck.tier == "quick" else 200000
+    rows4 = torch.tensor([[0.0, 0.0], [0.0, 1.0], [1.0, 0.0], [1.0, 1.0]])
+    p3 = math.exp(5.0) / (math.exp(5.0) + 15.0)
+    for tau in (1e-38, 1e-3, 1.0, 50.0, 1e8, 1e9):
+        for mode in ("gumbel_hard", "gumbel_soft"):
+            torch.manual_seed(ck.seed + 77)
+            d = LogicDense(2, n_neur, device="cpu", forward_sampling=mode, temperature=tau)
+            d.indices = (torch.zeros(n_neur, dtype=torch.long), torch.ones(n_neur, dtype=torch.long))
+            d.train()
+            with torch.no_grad():
+                y = d(rows4)
+            case = {"kind": "raw-gate-distribution", "mode": mode, "tau": tau, "neurons": n_neur}
+            ck.case(case, nontrivial=True, kind="raw-gate-distribution")
+            if not bool(torch.isfinite(y).all()) or float(y.min()) < -1e-6 or float(y.max()) > 1 + 1e-6:
+                ck.disagree("raw Gumbel-mode training output is not a finite value in [0,1]", dict(case, nan=int(torch.isnan(y).sum())),
+                            signature={"layer": "dense", "param": "raw", "mode": mode, "what": "range"})
+                continue
+            if mode == "gumbel_hard":
+                if float(torch.minimum(y.abs(), (y - 1).abs()).max()) > 1e-6:
+                    ck.disagree("gumbel_hard training output on Boolean inputs is not Boolean (not a single gate per neuron)", case,
+                                signature={"layer": "dense", "param": "raw", "mode": mode, "what": "single-gate"})
+                    continue
+                is3 = ((y.round() == torch.tensor([[0.0], [0.0], [1.0], [1.0]])).all(0)).float().mean().item()
+                sd = math.sqrt(p3 * (1 - p3) / n_neur)
+                if abs(is3 - p3) > 6 * sd:
+                    ck.disagree("raw gumbel_hard: the frequency of the sampled gate depends on the temperature (it must be softmax(logits))",
+                                case, expected=p3, observed=is3, signature={"what": "raw-gate-frequency", "layer": "dense"})
     # every tree level of a Walsh convolution samples: a node whose form is the constant c (coefficients (c,0,0,0)) is 1 with
     # probability logistic(c) in gumbel_hard, whatever its inputs and whatever the temperature - checked at the root of depth-1
     # and depth-2 trees (the leaves carry random coefficients), and switching the sampling mode after a training forward is honoured
